@@ -626,6 +626,7 @@ type SpecDB struct {
 	Guards    []GuardDef
 	Immutable []GuardDef
 	PkgRules  []PkgRule
+	RawAxioms [][2]string
 	Files     []string
 }
 
@@ -636,7 +637,7 @@ func newSpecDB() *SpecDB {
 var directiveWords = map[string]bool{
 	"func": true, "requires": true, "ensures": true, "modifies": true, "loop": true, "pure": true,
 	"ghost": true, "lemma": true, "axiom": true, "uninterp": true, "guarded": true, "immutable": true,
-	"pkg": true, "let": true, "end": true,
+	"pkg": true, "let": true, "end": true, "rawaxiom": true,
 }
 
 // parseTags parses an optional leading "[C01,C05]" or "[C01:name]"
@@ -896,6 +897,12 @@ func (db *SpecDB) parseContractText(file, pkgPath, text string) error {
 				return fmt.Errorf("%s:%d: %v", file, l.ln, err)
 			}
 			db.Axioms = append(db.Axioms, AxiomDef{Name: strings.TrimSpace(rest[:i]), E: e, Pkg: pkgPath, Src: rest[i+1:]})
+		case "rawaxiom":
+			f := strings.SplitN(rest, " ", 2)
+			if len(f) != 2 {
+				return fmt.Errorf("%s:%d: rawaxiom <symbol> <smt assertion>", file, l.ln)
+			}
+			db.RawAxioms = append(db.RawAxioms, [2]string{f[0], strings.TrimSpace(f[1])})
 		case "lemma":
 			tags, _, r := parseTags(rest)
 			i := strings.Index(r, "(")
